@@ -7,7 +7,8 @@ EXTENDS Token, Json, SequencesExt, AuthShapes
 VARIABLE st
 Auths == {{p} : p \in Accts \ {"token"}} \cup {{}}
 Acts(s) ==
-    {[name |-> "Mint", to |-> "alice", amt |-> 2, auth |-> {s.owner}],
+    {[name |-> "HookOpenWindow"],
+     [name |-> "Mint", to |-> "alice", amt |-> 2, auth |-> {s.owner}],
      [name |-> "AddMinter", minter |-> "bob", auth |-> {s.owner}]}
     \cup {[name |-> "Approve", from |-> "alice", spender |-> "bob", amt |-> 1, exp |-> s.seq + 5, auth |-> au] : au \in Auths}
     \cup {[name |-> "Transfer", from |-> "alice", to |-> "bob", amt |-> 1, auth |-> au] : au \in Auths}
@@ -41,10 +42,17 @@ Acts(s) ==
     \cup {[name |-> "Approve", from |-> "token", spender |-> "bob", amt |-> 1, exp |-> s.seq + 5, auth |-> au] : au \in {{}, {"mallory"}}}
     \cup {[name |-> "Burn", from |-> "token", amt |-> 0, auth |-> {}]}
 Within(s) == Supply(s) <= 3
-Init == st = Blank("its0", "its0", 1)
-EnabledActs(s) == {a \in Acts(s) : Within(Apply(s, a).post)}
-Next == \E a \in EnabledActs(st) : st' = Apply(st, a).post
-Step(P(_, _, _)) == \A a \in EnabledActs(st) : P(st, a, Apply(st, a))
+(* `win`: the Upgradable interface's migration window is open (instance-level ghost, not observable; set by the
+   verification hook).  Every action is explored with the window closed AND open. *)
+WithWin(s, w) == [f \in DOMAIN s \cup {"win"} |-> IF f = "win" THEN w ELSE s[f]]
+ApplyW(s, a) ==
+    IF a.name = "HookOpenWindow"
+    THEN [ok |-> TRUE, why |-> "ok", fails |-> {}, free |-> FALSE, ret |-> "unit", ev |-> <<>>, post |-> [s EXCEPT !.win = TRUE]]
+    ELSE Apply(s, a)
+Init == st = WithWin(Blank("its0", "its0", 1), FALSE)
+EnabledActs(s) == {a \in Acts(s) : Within(ApplyW(s, a).post)}
+Next == \E a \in EnabledActs(st) : st' = ApplyW(st, a).post
+Step(P(_, _, _)) == \A a \in EnabledActs(st) : a.name # "HookOpenWindow" => P(st, a, ApplyW(st, a))
 NamedOf(a) == CASE a.name \in {"Approve", "Transfer", "Burn", "Clawback"} -> a.from
                 [] a.name \in {"TransferFrom", "BurnFrom"} -> a.spender
                 [] a.name = "MintFrom" -> a.minter
@@ -61,7 +69,7 @@ Dump ==
     LET acts == SetToSeq(EnabledActs(st)) IN
     PrintT(<<"NODE", ToJson([pre |-> Obs(st),
         edges |-> [i \in 1..Len(acts) |->
-            LET r == Apply(st, acts[i]) IN
+            LET r == ApplyW(st, acts[i]) IN
             [act |-> acts[i],
              exp |-> [ok |-> r.ok, why |-> r.why, fails |-> r.fails, free |-> r.free, ret |-> r.ret, ev |-> r.ev],
              post |-> IF r.post = st THEN "same" ELSE Obs(r.post)]]])>>)
